@@ -3,7 +3,7 @@
    Z, N, positive, nat stay the extracted inductive types.  No Extract Constant
    or Extract Inductive of our own. *)
 From Coq Require Import ExtrOcamlBasic.
-From Model Require Import Base Uni Notation Utf8 Inputrc HistFile Dispatch Editor Grid Macro CompInsert.
+From Model Require Import Base Uni Notation Utf8 Inputrc HistFile Dispatch Editor Grid Macro CompInsert Term Display.
 From Gen Require Import Binds.
 Extraction "rlmodel_core.ml"
   dom escape unescape unescape_range convert_meta quote
@@ -13,4 +13,5 @@ Extraction "rlmodel_core.ml"
   run_one ed_init cur_undo ring_top modelled_commands sources_accept ed_exec default_binds effective_binds
   run_selects fresh_group
   m_init mstep fed_bytes
-  set_prefix complete_with accept_candidate.
+  set_prefix complete_with accept_candidate
+  term_init term_feed row_text layout coordinates_cursor coordinates_line next_cell.
